@@ -5,18 +5,11 @@ V = os.path.dirname(os.path.dirname(os.path.abspath(__file__)))
 props = [json.loads(l) for l in open(os.path.join(V, "properties.jsonl"))]
 ids = [p["id"] for p in props]
 
-CLAIMED = {
- "C12": dict(
-   text="Machine-checked proof (Coq) that the model of QUtil::parse_numrange equals the declarative denotation of the manual's range grammar for every string and every max, that the collation loop equals the round-robin specification and is a permutation of the selected pages, that split chunks concatenate to the input with sizes 1..n, and that rotation is correct modulo 360; the model is tied to /repo by running QUtil::parse_numrange in-process against the extracted model and the extracted specification (exhaustive short bodies + grammar-derived ranges), and the CLI (--pages, --collate, --split-pages, --rotate) against the extracted specifications on marker documents.",
-   note="Trusted: Coq kernel; hand-written model of parse_numrange/collation/split/rotate tied by differential runs; std::regex semantics of the one group expression; qpdf's own reader is used to read page lists of outputs. AcroForm fix-up, label remapping and resource pruning are not modelled.",
-   technique="Coq proof (refinement of a loop model to a declarative spec) + extracted-model/implementation correspondence",
-   design="§5 C12"),
- "C15": dict(
-   text="Machine-checked proofs (Coq, 22 theorems, closed under the global context) about models of qpdf's pipelines written from Pl_*.cc: any chunking of the input into write() calls gives the same output (ASCIIHex, ASCII85, RunLength both ways, LZW, PNG, TIFF); the ASCIIHex, ASCII85, RunLength, PNG (all five filter types, any bytes-per-pixel) and TIFF-8-bit decoders exactly invert independent reference encoders written from the PDF/PNG/TIFF specifications; qpdf's RunLength, PNG-up, TIFF and Base64 encoders are inverted by reference decoders; BitStream reads MSB-first; RC4 is an involution; the LZW code table and code width stay within 4096 entries / 9..12 bits. Every model is tied to /repo by running the real Pl_* classes from libqpdf.a on the same (parameters, data, chunking) triples as the extracted models, and the extracted reference codecs decide the property on the implementation's side.",
-   note="Trusted: Coq kernel; hand-written models tied by differential runs (exhaustive 1-2 byte inputs, predictor parameter sweep, all chunkings of short inputs); Flate/DCT not modelled; LZW decoder-inverts-encoder and TIFF bit-path inversion are tested against the extracted reference encoder / round trip, not yet proved; provider equality (native/openssl/gnutls) is observed.",
-   technique="Coq proof (codec inversion, chunking independence) + extracted-model/implementation correspondence",
-   design="§5 C15"),
-}
+CLAIMED = {}
+mdir = os.path.join(V, "tools", "manifest")
+for fn in sorted(os.listdir(mdir)):
+    if fn.endswith(".json"):
+        CLAIMED[fn[:-5]] = json.load(open(os.path.join(mdir, fn)))
 NOT_YET = "not claimed yet: the Coq model and correspondence for this property have not been built/validated in /verif at this commit (see DESIGN.md §5 for the plan)"
 
 checks = []
